@@ -88,11 +88,13 @@ def gen_expr(rng, depth, positive=False):
     if k in ("plus", "product"):
         a = gen_expr(rng, depth - 1, positive)
         b = gen_expr(rng, depth - 1, positive)
+        if not positive:
+            a, b = ranged(rng, a), ranged(rng, b)
         fn = ap.plus if k == "plus" else ap.product
         txt = None if (a[1] is None or b[1] is None) else "%s(%s, %s)" % ("sum" if k == "plus" else "product", a[1], b[1])
         return fn(a[0], b[0]), txt, (k, a[2], b[2]), a[3] + b[3]
     if k == "sum3":
-        xs = [gen_expr(rng, depth - 1) for _ in range(3)]
+        xs = [ranged(rng, gen_expr(rng, depth - 1)) for _ in range(3)]
         f = ap.plus(ap.plus(xs[0][0], xs[1][0]), xs[2][0])
         txt = None if any(x[1] is None for x in xs) else "sum(%s)" % ", ".join(x[1] for x in xs)
         return f, txt, ("sum3",) + tuple(x[2] for x in xs), sum((x[3] for x in xs), [])
@@ -139,6 +141,17 @@ def gen_expr(rng, depth, positive=False):
     rm = round((rd + ra) / 2, 3)
     f = pfo.buck4(A, rho, C, rd, rm, ra)
     return f, "as.buck4 %r %r %r %r %r %r" % (A, rho, C, rd, rm, ra), ("buck4", A, rho, C, rd, rm, ra), [rd, rm, ra]
+
+
+def ranged(rng, a, p=0.3):
+    """an ARGUMENT of a modifier may carry its own range start (`sum(as.buck 1000 0.3 10, >=2.0 sum(...))`): the argument then acts from that start only and
+    is zero below it (seed C09_6).  Applied to arguments whose text has no top-level range of its own."""
+    if rng.random() >= p or a[1] is None or a[1].startswith(">") or " >" in a[1]:
+        return a
+    marker = rng.choice([">", ">="])
+    s = round(rng.uniform(0.8, 6.0), 3) + 0.000371
+    f = ap.create_Multi_Range_Potential_Form(ap.Multi_Range_Defn(marker, s, a[0]))
+    return f, "%s%r %s" % (marker, s, a[1]), ("from", marker, s, a[2]), a[3] + [s]
 
 
 def potable_callable(text):
@@ -194,14 +207,45 @@ def check(run):
     formlib.validate_translator(run, whiches=("deriv", "deriv2"), npts=run.n(120, 2000))
     # ---- closures ---------------------------------------------------------------------------------------------------------
     reqs, metas = [], []
+    nrule = 0
     for cname, fn in (("plus", ap.plus), ("product", ap.product), ("pow", ap.pow)):
         pts = []
         for _ in range(run.n(100, 2000)):
             va = rnd(rng, 0.2, 5, 3) if cname == "pow" else rnd(rng, -5, 5, 3)
             vb, da, db, d2a, d2b = [rnd(rng, -3, 3, 3) for _ in range(5)]
+            # operands that are EXACTLY zero at the evaluation point (an isolated zero crossing of a factor, a vanishing exponent or slope): the rules must not
+            # short-cut there (seed C07_5: product().deriv returned 0 wherever a factor vanished)
+            z = rng.random()
+            if z < 0.12 and cname != "pow":
+                va = 0.0
+            elif z < 0.24:
+                vb = 0.0
+            elif z < 0.30:
+                da = 0.0
+            elif z < 0.36:
+                db = 0.0
             f = fn(Sym(va, da, d2a), Sym(vb, db, d2b))
             pot, der, der2 = f(1.0), f.deriv(1.0), f.deriv2(1.0)
             pts.append(([va, vb, da, db, d2a, d2b, pot, der], (pot, der, der2)))
+            # property oracle on the implementation itself: the sum / product / power rules to second order, written out independently
+            if cname == "plus":
+                want = (va + vb, da + db, d2a + d2b)
+            elif cname == "product":
+                want = (va * vb, va * db + vb * da, va * d2b + 2.0 * da * db + vb * d2a)
+            else:
+                fv = va ** vb
+                g1 = db * math.log(va) + vb * da / va
+                want = (fv, fv * g1, fv * (g1 * g1 + d2b * math.log(va) + 2.0 * db * da / va + vb * d2a / va - vb * da * da / (va * va)))
+            run.case(key=("closure-rule", cname, va, vb, da, db, d2a, d2b), kind="closure-rule-" + cname)
+            for which, got, w in zip(("value", "deriv", "deriv2"), (pot, der, der2), want):
+                scale = abs(va * d2b) + abs(2 * da * db) + abs(vb * d2a) + abs(w) if cname != "pow" else abs(w) + abs(fv) * (g1 * g1 + abs(d2b * math.log(va)) + abs(2 * db * da / va) + abs(vb * d2a / va) + abs(vb * da * da / (va * va)))
+                if abs(got - w) > 1e-11 * scale + 1e-300:
+                    if nrule < 2:
+                        run.fail("deriv-mismatch", "%s(a, b).%s where a = %r (a' = %r, a'' = %r) and b = %r (b' = %r, b'' = %r) at the evaluation point: got %r, the %s rule gives %r" % (
+                            cname, which, va, da, d2a, vb, db, d2b, got, {"plus": "sum", "product": "product", "pow": "power"}[cname], w),
+                            dict(combinator=cname, which=which, a=[va, da, d2a], b=[vb, db, d2b], observed=got, expected=w))
+                    nrule += 1
+                    break
         for which, idx in (("potential", 0), ("deriv", 1), ("deriv2", 2)):
             reqs.append(dict(m="expr", op="closure", name="%s.%s" % (cname, which), points=[[me(float(x)) for x in p[0]] for p in pts]))
             metas.append((cname, which, idx, pts))
